@@ -131,6 +131,19 @@ def share(b, a, A):
 
 def check_pair(a, b, R, rng):
     A, B = refcat.from_ref(a), refcat.from_ref(b)
+    if a[0] == 'F' and a[1] == a[3] and b[0] == 'F':
+        # a modifier built from ONE object (x / x, y | y): comparisons must not depend on that
+        from depccg.cat import Functor
+        part = refcat.from_ref(a[1])
+        M = Functor(part, a[2], part)
+        R.count('law:one-object-modifier')
+        try:
+            if bool(M == B) != (a == b) or bool(B == M) != (a == b) or bool(M ^ B) != (refcat.blind(a) == refcat.blind(b)) \
+                    or bool(B ^ M) != (refcat.blind(a) == refcat.blind(b)):
+                R.violation('cat:xor', f'comparison with a modifier whose two parts are one object is wrong: '
+                            f'{refcat.ref_print(a)} vs {refcat.ref_print(b)}', {'a': refcat.ref_print(a), 'b': refcat.ref_print(b), 'one_object': True})
+        except Exception as e:
+            R.violation('cat:eq-hash', f'comparison raised {e!r}', {'a': refcat.ref_print(a), 'b': refcat.ref_print(b), 'one_object': True})
     if a != b and a[0] == 'F' and b[0] == 'F':
         S = share(b, a, A)
         R.count('law:shared-parts')
@@ -203,6 +216,8 @@ def run(spec, R):
             R.case((a, 'str', s), True)
             try:
                 r1 = A == s                                          # contract: equal iff s is the canonical text
+                if bool(A != s) == bool(r1):
+                    R.violation('cat:string-eq', f'== and != agree on the string {s!r}', {'a': refcat.ref_print(a), 's': s})
             except Exception as e:
                 R.violation('cat:string-eq', f'comparison with {s!r} raised {e!r}', {'a': refcat.ref_print(a), 's': s})
         # ^ transitivity on a feature-blind class
@@ -219,6 +234,11 @@ def run(spec, R):
         trip = [refcat.feat_print(x[2]) for x in refcat.atoms(a) if x[2] is not None and x[2][0] == 'T']
         if trip and rng.random() < 0.3:
             F = F + (rng.choice(trip),)               # a three-part feature named by its own text
+        unary = [x[2][1] for x in refcat.atoms(a) if x[2] is not None and x[2][0] == 'U' and x[2][1]]
+        if unary and rng.random() < 0.3:
+            # names that only resemble a feature of the value (a proper prefix, a suffix, an extension) erase nothing
+            f = rng.choice(unary)
+            F = F + tuple(n for n in (f[:rng.randint(1, len(f))][:-1] or None, f[1:] or None, f + 'x') if n and rng.random() < 0.6)
         R.case((a, 'clear', F, G), a[0] == 'F')
         try:
             c1 = A.clear_features(*F)                                # contract: equals reference erasure
